@@ -490,7 +490,7 @@ def run_history(case, ctx, v15, v16, coherence_every_step=True):
             try:
                 exec_valid(w, d)
             except Exception as exc:  # noqa: BLE001
-                if isinstance(exc, ValueError) and "already registered" in str(exc) and d["d"] == "type" and \
+                if isinstance(exc, ValueError) and d["d"] == "type" and \
                         d["kind"] == "derived" and not d.get("refsym") and \
                         any(not w.m.units[w.m.types[ti].ref_uid].plain_symbol for ti, _ in d["def"]
                             if w.m.types[ti].has_ref):
